@@ -14,6 +14,11 @@ func c04Check(s string) {
 		nd.Cover("unparsable")
 		return
 	}
+	if nd.Known("C04-trailing-escaped-space") && vTrailingEscapedSpace(s) {
+		// recorded finding (C03): an escaped white space at the end of an unquoted string is
+		// trimmed from the raw text, which leaves the backslash in front of the line end
+		return
+	}
 	f := d2format.Format(ast)
 	pa, oka := vCompile(s, nil)
 	if !oka {
@@ -96,4 +101,23 @@ func VerifC04Templates() {
 		s = "a -> b <- c -- d: " + h + "\nb <-> a: " + h + "\n"
 	}
 	c04Check(s)
+}
+
+// vTrailingEscapedSpace: some unquoted text of s ends in an escaped white space
+// (backslash, blank, then optional blanks up to a line end, closing brace or
+// bracket, semicolon, comment or the end of the input).
+func vTrailingEscapedSpace(s string) bool {
+	for i := 0; i+1 < len(s); i++ {
+		if s[i] != '\\' || (s[i+1] != ' ' && s[i+1] != '\t') {
+			continue
+		}
+		j := i + 2
+		for j < len(s) && (s[j] == ' ' || s[j] == '\t') {
+			j++
+		}
+		if j == len(s) || s[j] == '\n' || s[j] == '}' || s[j] == ']' || s[j] == ';' || s[j] == '#' {
+			return true
+		}
+	}
+	return false
 }
